@@ -747,6 +747,28 @@ def rand_operator(rng, PauliTerm, PauliSum, kinds=None, pool=None, max_terms=6):
     return PauliSum(terms), (kind, spec)
 
 
+def near_sibling(rng, PauliTerm, PauliSum, op, spec):
+    """an operator on the same Pauli strings as ``op`` whose coefficients differ from op's by a few parts in 1e7
+    (the library's term equality and term hash take the two for equal; as operators they are different) - or, now
+    and then, an equal operator built afresh"""
+    kind, terms_spec = spec
+    if kind == "empty" or not terms_spec:
+        return (PauliSum(), spec)
+    same = rng.random() < 0.15
+    new_spec, terms = [], []
+    for c, st, ops in terms_spec:
+        c2 = complex(c)
+        if not same:
+            d = rng.choice([2e-7, -3e-7, 4e-7, 3e-6, -2e-8])
+            c2 = c2 * (1 + d) if c2 != 0 else complex(d)
+        c2 = c2.real if c2.imag == 0 else c2
+        new_spec.append((c2, "sibling", ops))
+        terms.append(PauliTerm(dict(ops), c2) if ops else PauliTerm({}, c2))
+    if len(terms) == 1 and isinstance(op, PauliTerm):
+        return terms[0], (kind, new_spec)
+    return PauliSum(terms), (kind, new_spec)
+
+
 def spec_text(spec):
     kind, terms = spec
     return kind + "[" + "; ".join(f"{c!r}:{''.join(f'{o}{q}' for q, o in sorted(ops.items())) or 'I'}" for c, _s, ops in terms) + "]"
@@ -1261,6 +1283,11 @@ def run_case(ctx):
                 _roundtrip(ctx, "op-file-roundtrip", do, ops_equal(exp, "lib"), spec_text(spec))
             else:
                 pairs = [rand_operator(rng, PauliTerm, PauliSum) for _ in range(rng.choice([0, 1, 2, 2, 3, 4]))]
+                if pairs and rng.random() < 0.4:
+                    # members that agree with an earlier member in everything but a few parts in 1e7 of a coefficient
+                    for _ in range(rng.randint(1, 2)):
+                        src = rng.choice(pairs)
+                        pairs.insert(rng.randint(0, len(pairs)), near_sibling(rng, PauliTerm, PauliSum, *src))
                 ops = [p[0] for p in pairs]
                 txt = " | ".join(spec_text(p[1]) for p in pairs)
                 ctx.describe(f"op_file set of {len(ops)}: {txt}", len(ops) >= 2 and any(spec_nontrivial(p[1]) for p in pairs))
